@@ -1,0 +1,9 @@
+//go:build !verif
+
+// Package verifhook provides crash/fault injection points for an external verification harness.
+// Without the `verif` build tag (the normal build) they are no-ops.
+package verifhook
+
+// Point marks a place where a verification harness may stop the process or inject a failure.
+// Always returns nil in normal builds.
+func Point(_ string) error { return nil }
